@@ -97,13 +97,17 @@ func runC15(c *eng.Ctx, tier string) {
 		c.Undecided("R-C15-2", nil, 0, "the function installing poll results", "not found")
 	}
 	for _, apply := range afs {
-		var outer *mapLoop
-		for _, ml := range mapLoops(apply) {
-			if _, isP := eng.Origin(ml.Range.X).(*ssa.Parameter); isP {
-				mm := ml
-				outer = &mm
+		// the loop over the update set may be in the caller of an installing helper
+		paramLoop := func(f *ssa.Function) *mapLoop {
+			for _, ml := range mapLoops(f) {
+				if _, isP := eng.Origin(ml.Range.X).(*ssa.Parameter); isP {
+					mm := ml
+					return &mm
+				}
 			}
+			return nil
 		}
+		outer := paramLoop(eng.HelperRoot(apply, func(f *ssa.Function) bool { return paramLoop(f) != nil }))
 		var installs []*ssa.Store
 		for _, a := range storeAccesses(p) {
 			if a.Fn == apply && a.What == "cachedSecret.Secret" && a.Kind == "store" {
@@ -128,7 +132,7 @@ func runC15(c *eng.Ctx, tier string) {
 				for _, rl := range eng.RangeLoops(apply) {
 					if rl.ElemOf(nc.Call.Args[0]) {
 						if lk, isLk := eng.Origin(rl.Slice).(*ssa.Lookup); isLk {
-							if nm, isAct := activeMapOf(lk.X); isAct && nm == "w" && eng.Origin(lk.Index) == outer.Key {
+							if nm, isAct := activeMapOf(lk.X); isAct && nm == "w" && eng.OriginX(lk.Index) == outer.Key {
 								okName = true
 							}
 						}
@@ -157,7 +161,7 @@ func runC15(c *eng.Ctx, tier string) {
 				if wl == nil {
 					continue
 				}
-				hit, path := eng.Search(apply, st, nil, func(x ssa.Instruction) bool { return x.Block() == wl.Header }, func(x ssa.Instruction) bool {
+				hit, path := eng.SearchX(apply, st, nil, func(x ssa.Instruction) bool { return x.Block() == wl.Header }, func(x ssa.Instruction) bool {
 					return x.Block() == outer.Header || eng.IsReturn(x)
 				})
 				c.Check(hit == nil, "R-C15-2", apply, st.Pos(), eng.InstrStr(st), "every installing iteration goes on to notify that name's watchers", func() string {
@@ -289,9 +293,9 @@ func c15Get(c *eng.Ctx) {
 	}
 	// the builder call
 	var build *ssa.Call
-	eng.Instrs(get, func(in ssa.Instruction) {
+	eng.InstrsDeep(get, func(_ *ssa.Function, in ssa.Instruction) {
 		if call, ok := in.(*ssa.Call); ok {
-			if fr, _, isF := eng.LoadedField(call.Call.Value); isF && fr.Name == "newValue" {
+			if fr, _, isF := eng.LoadedField(call.Call.Value); isF && eng.IsNamed(fr.Owner, setecPkg, "Updater") && isBuilderType(call.Call.Value.Type()) {
 				build = call
 			}
 		}
@@ -300,9 +304,14 @@ func c15Get(c *eng.Ctx) {
 		c.Undecided("R-C15-5", get, get.Pos(), "builder call", "not found")
 		return
 	}
+	// the rebuild may live in a helper of Get: the rules below look at the
+	// function holding the builder call, with the facts of its call site
+	top := get
+	get = build.Parent()
+	defer func() { get = top }()
 	// on the ready edge of a non-blocking receive from the watcher
 	ready := false
-	for _, cond := range eng.FactsAt(build) {
+	for _, cond := range eng.FactsX(build) {
 		op, x, y, isCmp := cond.Cmp()
 		if !isCmp || op != token.EQL {
 			continue
@@ -326,7 +335,7 @@ func c15Get(c *eng.Ctx) {
 			ready = true
 		}
 	}
-	c.Check(ready, "R-C15-5", get, build.Pos(), eng.CallStr(&build.Call)+" [when]", "the value is rebuilt only on the ready edge of a non-blocking receive from the watcher (only if an install happened since the previous Get)", "holding: "+eng.FactsString(build))
+	c.Check(ready, "R-C15-5", get, build.Pos(), eng.CallStr(&build.Call)+" [when]", "the value is rebuilt only on the ready edge of a non-blocking receive from the watcher (only if an install happened since the previous Get)", "holding: "+factsStr(eng.FactsX(build)))
 	// with the watcher's current bytes
 	okArg := p.DependsOn(build.Call.Args[0], func(v ssa.Value) bool {
 		fr, _, isF := eng.LoadedField(v)
@@ -430,7 +439,7 @@ func c15Get(c *eng.Ctx) {
 		return "return reached without updating err: " + p.PathStr(path)
 	}())
 	// result: the field's value, loaded after any store
-	for _, r := range eng.Returns(get) {
+	for _, r := range eng.Returns(top) {
 		rv := eng.RetVals(r)
 		ld, fa, isL := loadField(eng.Origin(rv[0]))
 		okk := false
@@ -439,13 +448,13 @@ func c15Get(c *eng.Ctx) {
 				okk = true
 				for _, st := range valStores {
 					// a store after the load would make the result stale
-					if hit, _ := eng.Search(get, ld, nil, nil, func(x ssa.Instruction) bool { return x == ssa.Instruction(st) }); hit != nil {
+					if hit, _ := eng.SearchX(top, ld, nil, nil, func(x ssa.Instruction) bool { return x == ssa.Instruction(st) }); hit != nil {
 						okk = false
 					}
 				}
 			}
 		}
-		c.Check(okk, "R-C15-5", get, r.Pos(), eng.InstrStr(r), "Get returns the current value of the field, read after any replacement", "returns "+eng.ValStr(rv[0]))
+		c.Check(okk, "R-C15-5", top, r.Pos(), eng.InstrStr(r), "Get returns the current value of the field, read after any replacement", "returns "+eng.ValStr(rv[0]))
 	}
 }
 
